@@ -288,4 +288,49 @@ Fixpoint read_loop (fuel : nat) (st : state) (env : nat -> env_step) (i : nat) (
 Definition serve (st : state) (env : nat -> env_step) (bs : list byte) : result :=
   read_loop (S (length bs)) st env O bs.
 
+(* ------------------------------------------------------------------ a stream that stalls
+   The client has a read timeout: readHeader arms a deadline (now + timeout) before it reads the
+   header, and nothing re-arms it until the next readHeader.  The reader's stream delivers
+   [before], then stalls for longer than the timeout, then delivers [after].  Every read of the
+   message in progress that needs bytes beyond [before] therefore fails with a timeout (not
+   with io.EOF: io.Copy reports it).  What happens then, per path of passToHandler:
+     header incomplete / nothing there   readHeader fails: the loop ends
+     nobody entitled                     CopyN fails: the loop ends
+     awaited, within the limit           ReadFull fails: `return err`, the loop ends
+     a handler was called / awaited      the handler saw what there was; the DEFERRED drain fails;
+       beyond the limit                  the tree as found reports that error and the loop ends.
+   [ignore_drain_error]: the drain's error is dropped instead — the loop goes on, the next
+   readHeader re-arms the deadline and, once the stream resumes, reads [after] from wherever
+   it starts.  Result: the dispatch records. *)
+Fixpoint read_loop_stall (ignore_drain_error : bool) (fuel : nat) (st : state) (env : nat -> env_step)
+         (i : nat) (bs after : list byte) : list dispatch :=
+  match fuel with
+  | O => []
+  | S fuel' =>
+      match read_header bs with
+      | RhOk h rest =>
+          if len rest <? h_len h then
+            (* the stall cuts this message's payload *)
+            let cs := s_closed_seen st || ((h_typ h =? MsgCloseConnectionResponse) && e_close_sent (env i)) in
+            match pass_to_handler (s_aw st) h (env i) rest with
+            | (PthOk d _, aw') =>
+                if ignore_drain_error
+                then d :: r_log (read_loop (S (length after)) (mkState aw' cs) env (S i) after)
+                else [d]
+            | (PthErr d, _) => [d]
+            end
+          else
+            match read_iter st (env i) bs with
+            | ItNext d st' rest' => d :: read_loop_stall ignore_drain_error fuel' st' env (S i) rest' after
+            | ItLast d => [d]
+            | ItEnd _ _ => []
+            end
+      | _ => []
+      end
+  end.
+
+Definition serve_stall (ignore_drain_error : bool) (st : state) (env : nat -> env_step)
+           (before after : list byte) : list dispatch :=
+  read_loop_stall ignore_drain_error (S (length before)) st env O before after.
+
 End WithLimit.
